@@ -6,13 +6,13 @@
 EXTENDS AGM, AGMDen, Json, IOUtils
 
 Traces == ndJsonDeserialize(IOEnv.TRACE_FILE)
-VARIABLES tid, fin
-tvars == <<vars, tid, fin>>
+VARIABLES tid, fin, pos
+tvars == <<vars, tid, fin, pos>>
 T == Traces[tid]
 
 TInit == /\ tid \in DOMAIN Traces
          /\ MInit({Traces[tid].prog})
-         /\ fin = FALSE
+         /\ fin = FALSE /\ pos = 1
 
 Done == \A th \in Threads : result[th].k # "none"
 
@@ -27,13 +27,19 @@ MachineOK(th) == \/ (result[th].k = "exc" /\ Obs(th).k = "exc")
                  \/ (result[th].k = "val" /\ Obs(th).k = "val" /\ Obs(th).v = Plain(result[th].v))
 IdsOK(th) == T.ids[th] = log[th]
 
-TStep == ~Done /\ MNext /\ UNCHANGED <<tid, fin>>
+\* a single thread simply runs; several threads follow the recorded schedule (one entry per machine step)
+TStep == /\ ~Done
+         /\ IF T.sched = <<>> THEN MNext
+            ELSE \E th \in Threads : /\ (pos <= Len(T.sched) => th = T.sched[pos])
+                                     /\ Step(th)
+         /\ pos' = pos + 1
+         /\ UNCHANGED <<tid, fin>>
 TFinish == /\ Done /\ ~fin /\ fin' = TRUE
            /\ \A th \in Threads : DenOK(th)
            /\ PrintT(<<"ACCEPT", T.id>>)
            /\ (IF \A th \in Threads : MachineOK(th) /\ IdsOK(th) THEN TRUE ELSE PrintT(<<"DRIFT", T.id>>))
            /\ (IF \E th \in Threads : Den(prog, th).k = "unknown" THEN PrintT(<<"UNKNOWN", T.id>>) ELSE TRUE)
-           /\ UNCHANGED <<vars, tid>>
+           /\ UNCHANGED <<vars, tid, pos>>
 TNext == TStep \/ TFinish
 TSpec == TInit /\ [][TNext]_tvars
 =============================================================================
